@@ -15,10 +15,59 @@ fn bytes_of<T: bytemuck::Pod>(t: &T) -> Vec<u8> {
     bytemuck::bytes_of(t).to_vec()
 }
 
+/// a writer / reader that legally moves one byte per call (a pipe, a socket, a chained reader)
+pub struct Trickle(pub Vec<u8>, pub usize);
+impl std::io::Write for Trickle {
+    fn write(&mut self, buf: &[u8]) -> std::io::Result<usize> {
+        if buf.is_empty() {
+            return Ok(0);
+        }
+        self.0.push(buf[0]);
+        Ok(1)
+    }
+    fn flush(&mut self) -> std::io::Result<()> {
+        Ok(())
+    }
+}
+impl std::io::Read for Trickle {
+    fn read(&mut self, buf: &mut [u8]) -> std::io::Result<usize> {
+        if buf.is_empty() || self.1 >= self.0.len() {
+            return Ok(0);
+        }
+        buf[0] = self.0[self.1];
+        self.1 += 1;
+        Ok(1)
+    }
+}
+pub fn borsh_trickle<T: borsh::BorshSerialize>(v: &T) -> Option<Vec<u8>> {
+    let mut w = Trickle(Vec::new(), 0);
+    v.serialize(&mut w).ok()?;
+    Some(w.0)
+}
+pub fn borsh_untrickle<T: borsh::BorshDeserialize>(b: &[u8]) -> Option<T> {
+    let mut r = Trickle(b.to_vec(), 0);
+    T::deserialize_reader(&mut r).ok()
+}
+/// binary Serde formats whose integer encoding differs from a byte array's: bincode big-endian
+/// fixed-width and little-endian varint
+pub fn bincode_variants<T: serde::Serialize>(v: &T) -> (Vec<u8>, Vec<u8>) {
+    use bincode::Options;
+    (bincode::options().with_big_endian().with_fixint_encoding().serialize(v).unwrap(),
+     bincode::options().with_little_endian().with_varint_encoding().serialize(v).unwrap())
+}
+pub fn bincode_be_back<T: serde::de::DeserializeOwned>(b: &[u8]) -> Option<T> {
+    use bincode::Options;
+    bincode::options().with_big_endian().with_fixint_encoding().deserialize(b).ok()
+}
+
 macro_rules! encodings_equal {
     ($rep:expr, $pod:expr, $prim:expr, $name:expr, borsh) => {{
         let a = borsh::to_vec(&$pod).unwrap();
         let b = borsh::to_vec(&$prim).unwrap();
+        if borsh_trickle(&$pod) != Some(b.clone()) || borsh_untrickle(&b) != Some($pod) {
+            $rep.violate("borsh-short-io", "Borsh through a writer / reader that moves one byte per call differs from the primitive's encoding",
+                serde_json::json!({"type": $name, "prim": emit::hex(&b), "pod_written": borsh_trickle(&$pod).map(|x| emit::hex(&x))}).to_string());
+        }
         if a != b {
             $rep.violate("borsh-encoding", "Borsh encoding of the Pod value differs from the primitive's",
                 serde_json::json!({"type": $name, "pod": emit::hex(&a), "prim": emit::hex(&b)}).to_string());
@@ -38,6 +87,12 @@ macro_rules! encodings_equal {
         let back = serde_json::from_str(&b).unwrap();
         if $pod != back {
             $rep.violate("serde-decoding", "Serde decoding differs", serde_json::json!({"type": $name}).to_string());
+        }
+        // binary (non-human-readable) formats
+        let (pa, pb) = (bincode_variants(&$pod), bincode_variants(&$prim));
+        if pa != pb || bincode::serialize(&$pod).unwrap() != bincode::serialize(&$prim).unwrap() || bincode_be_back(&pb.0) != Some($pod) {
+            $rep.violate("serde-binary-encoding", "Serde encoding in a binary format (bincode big-endian / varint / default) differs from the primitive's",
+                serde_json::json!({"type": $name, "pod_be": emit::hex(&pa.0), "prim_be": emit::hex(&pb.0), "pod_varint": emit::hex(&pa.1), "prim_varint": emit::hex(&pb.1)}).to_string());
         }
     }};
     ($rep:expr, $pod:expr, $prim:expr, $name:expr, wincode) => {{
